@@ -251,9 +251,14 @@ def op_cin_not_clone(rng, spec, m):
     ty = spec["types"][t]
     ty["clone"] = False
     ty["copy"] = False
-    for c in spec["ctors"].values():
+    for cid2, c in spec["ctors"].items():
         if c["out"] == t:
             c["cloning"] = "cin"
+            c.pop("ann_cloning", None)
+            # the attribute must be what is in effect: drop any registration-level override
+            for bp, _i, it in _bp_items(spec["bp"]):
+                if it[0] == "ctor" and it[1] == cid2 and len(it) > 2:
+                    it[2].pop("cloning", None)
     # nobody may take it by value any more (that would need Clone for other reasons)
     for k in ("handlers", "mws", "fallbacks", "ctors"):
         for x in spec[k].values():
